@@ -10,7 +10,7 @@ recorded from the real implementation.
 
 Reading of the statement.
 * An activation `activate s` of connection `c` is *possibly in force* from its request marker until the
-  reply to a request of `c` that ends it, and *firmly in force* from its `active` reply until the
+  positive reply to a request of `c` that ends it, and *firmly in force* from its `active` reply until the
   request marker of a request of `c` that ends it.  `deactivate d` ends the activations it matches
   (`cancels`: the same scope, or a parameter of the module `d`); `*IDN?` and disconnect end all.
 * `Silent`: an update for `m:p` is delivered to `c` only while an activation covering `m:p` is possibly in force.
@@ -82,7 +82,7 @@ def scopeItems (cfg : Cfg) (s : Scope) : List (Mod × Par) :=
 
 def liveNext (live : Conn → List Scope) : Obs → Conn → List Scope
   | .reqStart c (.activate s) => set live c (s :: live c)
-  | .reply c r _ => set live c ((live c).filter (fun a => !ends r a))
+  | .reply c r true => set live c ((live c).filter (fun a => !ends r a))
   | _ => live
 
 def silentOk (live : Conn → List Scope) : Obs → Bool
